@@ -130,9 +130,9 @@ struct Observer {
     }
 
     template <class TT>
-    static void queries(TT& t, const Walk& w, const KVs& mv, const Model& m, int qlo, int qhi, int step, const char* which) {
+    static void queries(TT& t, const Walk& w, const KVs& mv, const Model& m, const std::vector<int>& qs, const char* which) {
         int n = (int)mv.size();
-        for (int q = qlo; q <= qhi; q += step) {
+        for (int q : qs) {
             E qe = EOps<E>::make(q);
             int lo = Sys::lower_idx(mv, q), hi = Sys::upper_idx(mv, q);
             size_t mc = m.count(q);
@@ -274,16 +274,18 @@ struct Observer {
         KVs tv = seq(ct, n);
         conversions(t, w, tv, which);
 
-        int qlo = -1, qhi = sys.universe(m);
-        if (sys.P.mode == 'A') {
-            queries<Tree>(t, w, mv, m, qlo, qhi, 1, which);
-            queries<const Tree>(ct, w, mv, m, qlo, qhi, 1, (tag + " const").c_str());
+        std::vector<int> qall = sys.query_keys(m);
+        if (sys.P.mode != 'B') {
+            queries<Tree>(t, w, mv, m, qall, which);
+            queries<const Tree>(ct, w, mv, m, qall, (tag + " const").c_str());
         } else {
             // mode B (large universes): every key is queried in every new state, alternating between the const and
             // the non-const overloads (which one gets the even keys alternates with the size of the tree)
             int par = (n & 1);
-            queries<Tree>(t, w, mv, m, qlo + ((qlo + par) & 1), qhi, 2, which);
-            queries<const Tree>(ct, w, mv, m, qlo + ((qlo + par + 1) & 1), qhi, 2, (tag + " const").c_str());
+            std::vector<int> q0, q1;
+            for (int q : qall) (((q + par) & 1) == 0 ? q0 : q1).push_back(q);
+            queries<Tree>(t, w, mv, m, q0, which);
+            queries<const Tree>(ct, w, mv, m, q1, (tag + " const").c_str());
         }
 
         // key_comp / value_comp
@@ -311,6 +313,8 @@ struct Observer {
         size_t elems0 = s.tl.live.size();
         Ledger local;
         int U = sys.universe(m);
+        const bool S = sys.P.mode == 'S';
+        std::vector<int> qall = sys.query_keys(m);
         {
             Tree c(ct);  // copy constructor
             if (!temp_ok(sys, c, m, (tag + " copy").c_str())) return;
@@ -319,7 +323,7 @@ struct Observer {
             rel(c, ct, cv, tv, (tag + " copy vs original").c_str());
 
             // mutators that must not change anything, on the copy
-            for (int q = -1; q <= U; ++q) {
+            for (int q : qall) {
                 bool present = m.count(q) != 0;
                 if (!present) {
                     if (c.erase(EOps<E>::make(q)) != 0 || c.erase_one(EOps<E>::make(q))) sem_fail("return", vh::fmt("%s copy: erase of the absent key %d reports a removal", which, q));
@@ -342,8 +346,10 @@ struct Observer {
                 c.erase(c.begin());
                 Sys::model_erase_exact(mc, e.first, e.second);
             }
-            for (int q = 0; q < U; ++q) {
-                bool can = is_multi ? (int)mc.count(q) < sys.P.M : mc.count(q) == 0;
+            for (int q : qall) {
+                if (q < 0 && !S) continue;
+                if (q >= U && !S) break;
+                bool can = (is_multi && !S) ? (int)mc.count(q) < sys.P.M : mc.count(q) == 0;
                 if (!can) continue;
                 int v = sys.new_value(mc, q, 0);
                 c.insert(Sys::mkv(q, v));
@@ -352,7 +358,8 @@ struct Observer {
             }
             if constexpr (kind == MAP) {
                 int done = 0;
-                for (int q = U; q >= -1 && done < 3; --q) {
+                for (size_t qi = qall.size(); qi-- > 0 && done < 3;) {
+                    int q = qall[qi];
                     if (mc.count(q)) continue;
                     int got = EOps<E>::get(c[EOps<E>::make(q)]);
                     mc[q] = elem_default<E>();
